@@ -246,7 +246,7 @@ def run(ctx):
         for w_ in walk_no_nested(f_.node):
             if isinstance(w_, ast.With) and any(("inference_mode" in src(i_.context_expr) or "no_grad" in src(i_.context_expr)) for i_ in w_.items):
                 n_inf += 1
-                bad_ = sorted({src(c_.func)[:50] for b_ in w_.body for c_ in ast.walk(b_) if isinstance(c_, ast.Call) and isinstance(c_.func, ast.Attribute) and c_.func.attr not in EVAL_CALLS})
+                bad_ = sorted({src(c_.func)[:50] for b_ in w_.body for c_ in ast.walk(b_) if isinstance(c_, ast.Call) and isinstance(c_.func, ast.Attribute) and c_.func.attr not in EVAL_CALLS and not (isinstance(c_.func.value, ast.Name) and c_.func.value.id in ("logger", "logging", "warnings"))})
                 ctx.ob("R-API", "C20.6", f_, "inside torch.inference_mode() / no_grad() only evaluation calls are made (nothing that creates or re-binds module state)", not bad_, f"calls {bad_}", node=w_)
     ctx.require(n_inf >= 8, f"only {n_inf} inference-mode blocks found")
     ctx.floor("C20.6", 8)
